@@ -32,7 +32,13 @@ def gen_tree(rng, n=None, feats=None):
                 e["args"] = [rng.randrange(4) for _ in range(rng.randrange(0 if mode == "batch" else 1, 4))]
             if mode == "ctx":
                 e["ctx"] = rng.choice([{}, {"k": 1}, {"k": 2}, {"k": 1, "j": "a"}])
+            if rng.random() < F.get("p_when", 0.3):
+                e["when"] = sorted(set(rng.sample([0, 1, 2, 3, 4], rng.randrange(1, 4))))   # argument-dependent call structure
             nd["edges"].append(e)
+        if rng.random() < F.get("p_recur", 0.15):
+            # self-recursion towards a base case (x <= 0), before or after the other sub-calls
+            rec = {"to": i, "mode": rng.choice(["call", "call", "catch"]), "arg": ["x-1"], "when": "positive"}
+            nd["edges"].insert(rng.choice([0, len(nd["edges"])]), rec)
         if rng.random() < F.get("p_repeat", 0.25) and nd["edges"]:
             nd["edges"].append(dict(rng.choice(nd["edges"])))   # a repeated sub-call
     return {"nodes": nodes}
@@ -41,7 +47,7 @@ def gen_tree(rng, n=None, feats=None):
 # ----------------------------------------------------------------------------- rendering
 
 def _argexpr(a):
-    return {"x": "x", "x+1": "x + 1"}.get(a[0], str(a[1]) if a[0] == "const" else a[0])
+    return {"x": "x", "x+1": "x + 1", "x-1": "x - 1"}.get(a[0], str(a[1]) if a[0] == "const" else a[0])
 
 
 def _call(nd_to, argexpr):
@@ -73,6 +79,7 @@ def render(prog, resource_paths=None):
             else:
                 out.append('    vres("vsim://r%d")' % rs["idx"])
         for e in nd["edges"]:
+            mark = len(out)
             t = prog["nodes"][e["to"]]
             a = _argexpr(e["arg"])
             tn = t["name"]
@@ -101,6 +108,10 @@ def render(prog, resource_paths=None):
                 out.append("        r.append(%s.with_prevent_further_calls(True)%s)" % (tn, _call(t, a)))
                 out.append("    except Exception as e:")
                 out.append('        r.append(["caught", type(e).__name__, __vmsg__(e)])')
+            if e.get("when") is not None:
+                cond = "x > 0" if e["when"] == "positive" else "x in %r" % (tuple(e["when"]),)
+                block = ["    " + ln for ln in out[mark:]]
+                out[mark:] = ["    if %s:" % cond] + block
         if nd["fail_on"]:
             out.append("    if x in %r:" % (tuple(nd["fail_on"]),))
             out.append('        raise ValueError("boom %s %%d" %% x)' % nd["name"])
@@ -133,7 +144,7 @@ class Model:
 
     @staticmethod
     def argval(a, x):
-        return x if a[0] == "x" else x + 1 if a[0] == "x+1" else a[1]
+        return x if a[0] == "x" else x + 1 if a[0] == "x+1" else x - 1 if a[0] == "x-1" else a[1]
 
     def run(self, i, x, ctx=None, prevent=False, calls=None, depth=0):
         """Returns (outcome, record).  outcome = ["ok", value] | ["exc", "ValueError", msg] | ["exc", "RuntimeError", ...]
@@ -160,6 +171,9 @@ class Model:
         for e in nd["edges"]:
             j = e["to"]
             mode = e["mode"]
+            if e.get("when") is not None:
+                if (e["when"] == "positive" and x <= 0) or (e["when"] != "positive" and x not in e["when"]):
+                    continue
             if mode in ("call", "kw", "catch", "ignore", "ctx", "prevent"):
                 xv = self.argval(e["arg"], x)
                 o, _ = sub(j, xv, e.get("ctx") if mode == "ctx" else None, mode == "prevent")
